@@ -171,6 +171,32 @@ SEED_ORDER = ['attrs', 'xsitype', 'nil', 'keys', 'wildcards', 'lists', 'dates', 
               'assert11', 'alt11', 'fixed']
 assert sorted(SEED_ORDER) == sorted(SEEDS) and len(SEED_ORDER) == 13
 
+# --- wildcard matrix ---------------------------------------------------------------------------------------
+# Content models with an ELEMENT wildcard whose namespace SET is empty (notNamespace with one / two values in
+# XSD 1.1, namespace="" in both versions) x processContents x required/optional x before/after an element
+# particle.  Each case has two instances: one with a child the wildcard admits (or none, for namespace=""), one with
+# a child of an excluded namespace.  The fault catalogue turns them into missing / unexpected / misplaced children,
+# so every children-validation error that has such a wildcard among the expected particles gets built.
+
+WILD_NS = {'not1': ('notNamespace="urn:x"', ('1.1',)),
+           'not2': ('notNamespace="urn:x urn:y"', ('1.1',)),
+           'empty': ('namespace=""', ('1.0', '1.1'))}
+WILD_CASES = {}
+for _ns, (_attr, _vers) in WILD_NS.items():
+    for _pc in ('strict', 'lax', 'skip'):
+        for _occ in ('req', 'opt'):
+            for _pos in ('before', 'after'):
+                _any = '<xs:any %s processContents="%s"%s/>' % (_attr, _pc, ' minOccurs="0"' if _occ == 'opt' else '')
+                _el = '<xs:element name="e" type="xs:int"/>'
+                _xsd = (HEAD + '><xs:element name="w" type="xs:string"/><xs:element name="r"><xs:complexType><xs:sequence>'
+                        + (_any + _el if _pos == 'before' else _el + _any)
+                        + '<xs:element name="t" type="xs:token" minOccurs="0"/></xs:sequence></xs:complexType>'
+                          '</xs:element></xs:schema>')
+                for _doc, _w in (('ok', '' if _ns == 'empty' else '<w>v</w>'), ('excluded', '<x:w xmlns:x="urn:x">v</x:w>')):
+                    _body = (_w + '<e>1</e>') if _pos == 'before' else ('<e>1</e>' + _w)
+                    WILD_CASES['%s-%s-%s-%s:%s' % (_ns, _pc, _occ, _pos, _doc)] = (_vers, _xsd, '<r>%s<t>z</t></r>' % _body)
+WILD_ORDER = sorted(WILD_CASES)
+
 # --- corpus -----------------------------------------------------------------------------------
 
 CORPUS_MAX = 2048
